@@ -31,9 +31,8 @@ func c20UnlistedPairings(c *Ctx) {
 	for _, dmg := range damages {
 		for n := 0; n <= 2; n++ {
 			for _, late := range []bool{false, true} {
-				if dmg == "none" && late {
-					continue
-				}
+				// (no damage, "late": a pairing event without a change of the storage — what pair-setup emits when its last
+				// step FAILS, M6 with an error, as well as when it succeeds)
 				id := fmt.Sprintf("unlisted-pairings#%s.%d.%v", dmg, n, late)
 				if c.Skip(id) {
 					continue
@@ -79,8 +78,15 @@ func c20UnlistedPairings(c *Ctx) {
 		sf := hc.VerifTxtRecords(t)["sf"]
 		if uc.late {
 			damage()
-			hc.VerifEmitter(t).Emit(event.DeviceUnpaired{})
+			if uc.damage == "none" {
+				hc.VerifEmitter(t).Emit(event.DevicePaired{})
+			} else {
+				hc.VerifEmitter(t).Emit(event.DeviceUnpaired{})
+			}
 			sf = hc.VerifTxtRecords(t)["sf"]
+		}
+		if uc.n == 0 && uc.damage == "none" && sf != "1" {
+			c.Violate("the accessory does not advertise itself as discoverable although no controller pairing is stored (after a pairing event that stored nothing: a pair-setup that failed in its last step)", uc.id, in, "sf=1", "sf="+sf)
 		}
 		if uc.n > 0 && sf != "0" {
 			c.Violate("the accessory advertises itself as discoverable while a controller pairing is stored (the stored entities cannot all be read)", uc.id, in, "sf=0", "sf="+sf)
